@@ -1777,6 +1777,14 @@ impl<'a> Query<'a> {
             s += " ?";
             s += name;
         }
+        if !self.assignments.is_empty() {
+            s += " WITH\n";
+            for assignment in self.assignments() {
+                s.push('\t');
+                s += &assignment.to_string()?;
+                s.push('\n');
+            }
+        }
         if !self.constraints.is_empty() {
             s += " WHERE\n";
             for (constraint, attributes) in self.constraints_with_attributes() {
@@ -4504,6 +4512,42 @@ pub enum Assignment<'a> {
 }
 
 impl<'a> Assignment<'a> {
+    /// Serialize the assignment to a (partial) STAMQL String
+    pub fn to_string(&self) -> Result<String, StamError> {
+        match self {
+            Self::Id(id) => Ok(format!("ID \"{}\";", id)),
+            Self::Target { name, offset } => {
+                let mut s = format!("TARGET ?{}", name);
+                if let Some(offset) = offset {
+                    s += &format!(" OFFSET {} {}", offset.begin, offset.end);
+                }
+                s.push(';');
+                Ok(s)
+            }
+            Self::ComplexTarget(SelectorKind::CompositeSelector) => Ok("COMPOSITE ;".to_string()),
+            Self::ComplexTarget(SelectorKind::MultiSelector) => Ok("MULTI ;".to_string()),
+            Self::ComplexTarget(SelectorKind::DirectionalSelector) => Ok("DIRECTIONAL ;".to_string()),
+            Self::Data { set, key, value } => match value {
+                DataValue::Null => Ok(format!("DATA \"{}\" \"{}\";", set, key)),
+                DataValue::String(v) => Ok(format!("DATA \"{}\" \"{}\" \"{}\";", set, key, v)),
+                DataValue::Bool(v) => Ok(format!("DATA \"{}\" \"{}\" {};", set, key, v)),
+                DataValue::Int(v) => Ok(format!("DATA \"{}\" \"{}\" {};", set, key, v)),
+                DataValue::Float(v) => Ok(format!("DATA \"{}\" \"{}\" {:?};", set, key, v)),
+                _ => Err(StamError::QuerySyntaxError(
+                    format!(
+                        "There is no query syntax for this value in an assignment: {:?}",
+                        value
+                    ),
+                    "Assignment::to_string()",
+                )),
+            },
+            _ => Err(StamError::QuerySyntaxError(
+                format!("There is no query syntax for this assignment: {:?}", self),
+                "Assignment::to_string()",
+            )),
+        }
+    }
+
     pub(crate) fn parse(mut querystring: &'a str) -> Result<(Self, &'a str), StamError> {
         let assignment = match querystring.split(QUERYSPLITCHARS).next() {
             Some("ID") => {
